@@ -136,6 +136,9 @@ func c16judge(box [4]float64, in [][][]P, o orb.Orientation, out orb.MultiPolygo
 	if !(math.Abs(area-expArea) <= 1e-9*scale*scale) {
 		return "total area differs from the area plain clipping gives", map[string]interface{}{"area": area, "plain_clip_area": expArea}
 	}
+	if !partsIndependent(out) {
+		return "rings of the result share memory: appending to one ring overwrites another", sv(out)
+	}
 	return "", nil
 }
 
@@ -515,6 +518,14 @@ func init() {
 						o = orb.CW
 						gen.Reverse(ring)
 					}
+					if r.P(1, 5) {
+						// a vertex given twice in a row (zero-length edge): the closing vertex, the first vertex, or any other
+						at := []int{len(ring) - 1, 0, r.Intn(len(ring))}[r.Intn(3)]
+						dup := append([]P{}, ring[:at+1]...)
+						dup = append(dup, ring[at])
+						ring = append(dup, ring[at+1:]...)
+						c.Count("rings_with_a_repeated_vertex", 1)
+					}
 					cx, cy := ring[0][0], ring[0][1]
 					if r.Bool() {
 						cx, cy = r.Uniform(-3, 3)*sc, r.Uniform(-3, 3)*sc
@@ -726,10 +737,19 @@ func init() {
 						}
 					}
 					var out orb.MultiPolygon
-					pv, st := h.Catch(func() { out = smartclip.MultiPolygon(b, cloneMP(mp), o) })
+					mpArg := cloneMP(mp)
+					if r.P(1, 4) {
+						// polygons without rings among the members (they enclose nothing)
+						for n := r.Range(1, 2); n > 0; n-- {
+							at := r.Intn(len(mpArg) + 1)
+							mpArg = append(mpArg[:at:at], append(orb.MultiPolygon{orb.Polygon{}}, mpArg[at:]...)...)
+						}
+						c.Count("multipolygons_with_empty_members", 1)
+					}
+					pv, st := h.Catch(func() { out = smartclip.MultiPolygon(b, mpArg, o) })
 					c.Eval()
 					if pv != nil {
-						c.Fail("", "smartclip.MultiPolygon panicked", map[string]interface{}{"box": box, "multipolygon": in, "orientation": int(o), "panic": sv(pv), "stack": st})
+						c.Fail("", "smartclip.MultiPolygon panicked", map[string]interface{}{"box": box, "multipolygon": in, "argument": sv(mpArg), "orientation": int(o), "panic": sv(pv), "stack": st})
 						return
 					}
 					if !anyCut {
@@ -741,7 +761,13 @@ func init() {
 							}
 						}
 						c.Count("multipolygon_nothing_cut", 1)
-						if !(len(out) == 0 && len(want) == 0) && !orb.Equal(out, want) {
+						var outNE orb.MultiPolygon // (a member without rings may or may not be passed through: it encloses nothing)
+						for _, pg := range out {
+							if len(pg) > 0 {
+								outNE = append(outNE, pg)
+							}
+						}
+						if !(len(outNE) == 0 && len(want) == 0) && !orb.Equal(outNE, want) {
 							c.Fail("", "smartclip.MultiPolygon with no ring cut does not return exactly the polygons inside the box, unchanged", map[string]interface{}{"box": box, "multipolygon": in, "orientation": int(o), "output": sv(out)})
 						}
 						return
